@@ -414,8 +414,10 @@ theorem rank_exact_total_order :
 
 example : Bm25Score.docScoreQ (fun _ => 1) 1 0
     (scoreInputs (run Index.empty [.insert 1 [(0, 1), (1, 2)], .insert 2 [(1, 1)]]) [1, 0]) 1 = 1 + 4 / 3 := by
-  norm_num [Bm25Score.docScoreQ, Bm25Score.tokenScoreQ, Bm25Score.tfcQ, Bm25Score.avgQ, scoreInputs, tokenInfo,
-    validIds, dedup, run, step, insert, Index.empty, addAll, addEntry, sumSnd, get?, hasKey, Index.live, Index.len]
+  have h : scoreInputs (run Index.empty [.insert 1 [(0, 1), (1, 2)], .insert 2 [(1, 1)]]) [1, 0]
+      = ((2 : Nat), (4 : Nat), [((1 : Nat), [((1 : Nat), (2 : Nat), (3 : Nat)), (2, 1, 1)]), (0, [(1, 1, 3)])]) := by rfl
+  rw [h]
+  norm_num [Bm25Score.docScoreQ, Bm25Score.tokenScoreQ, Bm25Score.tfcQ, Bm25Score.avgQ]
 
 end Bm25
 
